@@ -16,7 +16,8 @@ def run(chk):
     chk.rule("C20-D1.domain", "the objective is invoked only on the buffer that is appended to on the true edge of inside(candidate) with that same candidate; out-of-domain entries never reach it")
     chk.rule("C20-D2.best", "every write to a best-known position / its cached value / its flag is guarded by the particle being inside AND (no best yet OR strictly smaller value), "
                             "compares the value it stores, and writes position, value and flag together; the swarm best is updated under the same form against the particle best")
-    chk.rule("C20-D3.cache", "every public mutator of the best-known positions leaves the cached best values consistent: it invalidates the cache (cache_initialized = false) or clears the cached best flags")
+    chk.rule("C20-D3.cache", "every public mutator of the best-known positions leaves the cached best values consistent: it invalidates the cache (cache_initialized = false) or clears the cached best flags; "
+                             "every public mutator of the particle positions invalidates the cache; when the cache is rebuilt only best strips that were set are evaluated")
     chk.rule("C20-D4.loop", "per iteration: the branch on 'swarm best exists' is re-evaluated inside the loop, positions are advanced once, the constrained objective is evaluated once and update() follows it")
     chk.rule("C20-D5.random", "random numbers are drawn before the parallel loops, one fixed count per particle and branch")
 
@@ -67,11 +68,21 @@ def run(chk):
                         # the flag was assigned from inside(<source of the appended data>)
                         for a in walk(g.body, into_lambda=False):
                             if a.get("k") == "CXXOperatorCallExpr" and a.get("op") == "=" and txt(strip(a["c"][1])).startswith("inside_batch["):
-                                rhs = strip(a["c"][2])
-                                if rhs.get("k") == "CXXOperatorCallExpr" and rhs.get("op") == "()" and var_of(rhs["c"][1]) == iparam:
-                                    tested = base_var(rhs["c"][2])
-                                    okg = tested is not None and tested == src
-                                    detail = "flag = inside(%s), appended data from %s" % (txt(rhs["c"][2]), txt(call_args(n)[0])[:40])
+                                # the flag may be a conjunction (mask && inside(candidate)): a true flag implies each conjunct
+                                conj = [strip(a["c"][2])]
+                                while any(x is not None and x.get("k") == "BinaryOperator" and x.get("op") == "&&" for x in conj):
+                                    nxt = []
+                                    for x in conj:
+                                        if x is not None and x.get("k") == "BinaryOperator" and x.get("op") == "&&":
+                                            nxt += [strip(x["c"][0]), strip(x["c"][1])]
+                                        else:
+                                            nxt.append(x)
+                                    conj = nxt
+                                for rhs in conj:
+                                    if rhs is not None and rhs.get("k") == "CXXOperatorCallExpr" and rhs.get("op") == "()" and var_of(rhs["c"][1]) == iparam:
+                                        tested = base_var(rhs["c"][2])
+                                        okg = tested is not None and tested == src
+                                        detail = "flag = %sinside(%s), appended data from %s" % ("... && " if len(conj) > 1 else "", txt(rhs["c"][2]), txt(call_args(n)[0])[:40])
                 chk.ob("C20-D1.domain", fn.name, "append to %s only for in-domain candidates" % bname, okg, g.loc(n), detail)
         for n in walk(g.body, into_lambda=False):
             if n.get("k") == "CXXMemberCallExpr" and var_of(call_object(n)) == buf and (callee(n) or "").endswith(("::push_back", "::insert", "::resize", "::assign")):
@@ -189,6 +200,39 @@ def run(chk):
         chk.ob("C20-D3.cache", f.name + f.sig, "best positions edited => cached best values invalidated", bool(ok), f.where,
                "" if ok else "the cached values/flags of the previous best positions stay valid: a never visited point can remain 'best' with a value that is not the objective there")
     chk.floor("C20-D3.cache", nmut, 4, "public mutators of best_particle_positions")
+    # the same for the particle positions: their cached domain flags and objective values go stale with every edit made outside the algorithm
+    npos = 0
+    for f in db.all_functions([HPP, CPP]):
+        if f.cls != STATE or f.d.get("const") or f.d.get("isctor") or f.d.get("isdtor") or f.d.get("access") != "public":
+            continue
+        ws = list(member_writes(f))
+        pw = [n for n, fld, kd in ws if short(fld) == "particle_positions"]
+        if not pw:
+            continue
+        npos += 1
+        chk.saw(f)
+
+        def invalidates(x, ws=ws):
+            return any(n is x and short(fld) == "cache_initialized" for n, fld, kd in ws)
+        ok = all(must_pass_after(f, w, invalidates) or any(invalidates(x) for x in f.walk() if x.get("l", 0) <= w.get("l", 0) and x is not w) for w in pw)
+        if not ok:
+            # delegation to an overload that does it
+            ok = any(short(callee(c) or "") == short(f.name) for c in f.calls())
+        chk.ob("C20-D3.cache", f.name + f.sig, "particle positions edited => cache invalidated", bool(ok), f.where,
+               "" if ok else "cache_initialized stays true: the next run pairs the domain flags and objective values of the old positions with the new ones")
+    chk.floor("C20-D3.cache", npos, 4, "public mutators of particle_positions")
+    # the flag that admits all best strips to the objective at once is set only where all strips are known to be given: in the algorithm it is accompanied by a per-strip mask
+    nmask = 0
+    for c in [x for x in walk(fn.body, into_lambda=False) if x.get("k") == "CXXOperatorCallExpr" and x.get("op") == "()"]:
+        args = [a for a in c.get("c", []) if isinstance(a, dict)][2:]
+        if not args or "best_particle_positions" not in txt(args[0]):
+            continue
+        nmask += 1
+        last = strip(args[-1]) if len(args) >= 4 else None
+        masked = last is not None and last.get("k") not in ("CXXNullPtrLiteralExpr", "GNUNullExpr") and txt(last) not in ("nullptr", "0", "NULL")
+        chk.ob("C20-D3.cache", fn.name, "re-evaluation of the best positions is restricted to the strips that were set", masked, fn.loc(c),
+               "" if masked else "all N+1 best strips are handed to the constrained objective: a strip that was never set holds zeros and is adopted as a best position when the origin is inside the domain")
+    chk.floor("C20-D3.cache", nmask, 1, "re-evaluations of the best positions")
 
     return ("Static rule discharge over ParticleSwarm(), its lambdas f_constrained/update and the ParticleSwarmState mutators: who-may-call for the objective with branch-edge dominance of the "
             "domain flag; guard form of every best-position write (inside AND (no best OR strictly smaller, value compared = value stored)); per-iteration structure; cache coherence of the "
